@@ -125,7 +125,7 @@ func c15Value(r *rand.Rand, depth int) any {
 var c15Keys = []string{"port\x11", "max\x7fcon", "port1", "max_con", "Port\x111", "a\x00b", "listen", "limit", "port", "mode", "x", "a", "ab", "a_b", "A_B", "count", "max_latency", "MaxLatency", "sub", "sub.n1", "sub.n2", "inner", "p", "s", "i", "j", "m", "l", "f", "c", "base", "tag", "own", "hidden", "shown", "name", "Name", "q"}
 
 func c15Block(r *rand.Rand, depth int) bcl.Block {
-	b := bcl.Block{Type: []string{"blk", "t", "with_pointers", "withembedded", "with_unexported", "a", "sub", "inner"}[r.Intn(8)], Fields: map[string]any{}}
+	b := bcl.Block{Type: []string{"blk", "t", "with_pointers", "withembedded", "with_unexported", "a", "sub", "inner", "i", "p"}[r.Intn(10)], Fields: map[string]any{}}
 	if r.Intn(2) == 0 {
 		b.Name = []string{"n", "nm", "x y"}[r.Intn(3)]
 	}
@@ -704,6 +704,8 @@ func c16LocalB() any {
 	return &cfg{}
 }
 
+var c16BufferReuse string // set by c16Digest when the outcome depends on the caller's buffer after the call
+
 var c16Order = 0 // set from VERIF_C16_ORDER in fresh processes: the order of independent calls must not matter
 var c16Runs int64
 
@@ -752,7 +754,9 @@ func c16Digest(src []byte) string {
 			}
 			dB, _, _, _ := dumpOf(pb)
 			blB, biB, xB := bcl.Execute(pb)
-			fmt.Fprintf(&b, "after-buffer-reuse: dump-same=%v exec-same=%v|", bytes.Equal(d, dB), canonBlocks(blB) == canonBlocks(bl) && canonBinding(biB) == canonBinding(bi) && fmt.Sprint(xB) == fmt.Sprint(xerr))
+			if !bytes.Equal(d, dB) || canonBlocks(blB) != canonBlocks(bl) || canonBinding(biB) != canonBinding(bi) || fmt.Sprint(xB) != fmt.Sprint(xerr) {
+				c16BufferReuse = "a Prog parsed from a buffer that the caller overwrote afterwards differs from one parsed from an untouched buffer: dump equal=" + fmt.Sprint(bytes.Equal(d, dB))
+			}
 		}
 		// a dump into a failing writer must not influence the next dump
 		fw := &failingWriter{limit: len(d) / 2}
@@ -879,8 +883,13 @@ func init() {
 				}
 				c.Begin(i)
 				c.NoteInput("src", src)
+				c16BufferReuse = ""
 				first := c16Digest(src)
 				c.Eval(1)
+				if c16BufferReuse != "" {
+					c.Violation("depends-on-callers-buffer", c16BufferReuse, map[string]any{"source": core.Trunc(string(src), 1500)})
+					continue
+				}
 				ok := true
 				for k := 1; k < R && ok; k++ {
 					d := c16Digest(src)
